@@ -5,6 +5,9 @@
 set -u
 name=$1; wt=$2; sub=$3; shift 3
 export GOFLAGS=-mod=mod GOPROXY=off
+# optional lane: REPO=<scratch copy of /repo at HEAD> OUT=<scratch output root> BIN=<engine binary>; lanes can run at once
+REPO=${REPO:-/repo}; OUT=${OUT:-/verif}; BIN=${BIN:-/verif/bin/jdvc}
+export JDVC_REPO=$REPO JDVC_OUT=$OUT
 S=/verif/seeded/$name
 src=$wt/_seed/$sub
 [ -f $src/patch.diff ] || { echo "no patch in $src"; exit 2; }
@@ -33,15 +36,15 @@ cp $demo $wt/$demodir/zz_seed_demo_test.go
 (cd $wt/$demodir && go test -vet=off -count=1 -run 'Seed|seed|Demo|demo' . 2>&1 | tail -1 | sed 's/^/demo WITHOUT change: /') >> $log 2>&1
 rm -f $wt/$demodir/zz_seed_demo_test.go
 cat $log
-cd /repo && git status --short | grep -v '^??' && { echo "/repo not clean"; exit 3; }
-git -C /repo apply $S/patch.diff || { echo "patch does not apply to /repo"; exit 2; }
+cd $REPO && git status --short | grep -v '^??' && { echo "/repo not clean"; exit 3; }
+git -C $REPO apply $S/patch.diff || { echo "patch does not apply to /repo"; exit 2; }
 # does the change still break the property on the current /repo (later fix: commits may have made it harmless)?
-cp $demo /repo/$demodir/zz_seed_demo_test.go
-(cd /repo/$demodir && go test -vet=off -count=1 -run 'Seed|seed|Demo|demo' . 2>&1 | tail -1 | sed 's/^/demo on current \/repo WITH change: /') | tee -a $log
-rm -f /repo/$demodir/zz_seed_demo_test.go
+cp $demo $REPO/$demodir/zz_seed_demo_test.go
+(cd $REPO/$demodir && go test -vet=off -count=1 -run 'Seed|seed|Demo|demo' . 2>&1 | tail -1 | sed 's/^/demo on current tree WITH change: /') | tee -a $log
+rm -f $REPO/$demodir/zz_seed_demo_test.go
 for p in "$@"; do
-  (cd /verif && timeout 1500 bin/jdvc check --property $p --tier quick > $S/check_$p.out 2>&1; echo "check $p exit=$?" | tee -a $log; grep -c '^VIOLATION' $S/check_$p.out | sed "s/^/  violations: /" | tee -a $log; grep '^VIOLATION\|^ENGINE' $S/check_$p.out | head -5 | cut -c1-260 | tee -a $log)
+  (cd /verif && timeout 1500 $BIN check --property $p --tier quick > $S/check_$p.out 2>&1; echo "check $p exit=$?" | tee -a $log; grep -c '^VIOLATION' $S/check_$p.out | sed "s/^/  violations: /" | tee -a $log; grep '^VIOLATION\|^ENGINE' $S/check_$p.out | head -5 | cut -c1-260 | tee -a $log)
 done
-git -C /repo checkout -- .
-git -C /repo status --short | grep -v '^??'
+git -C $REPO checkout -- .
+git -C $REPO status --short | grep -v '^??'
 exit 0
